@@ -146,7 +146,7 @@ def replay(ctx, path):
 
 META = {
     "category": "proof",
-    "technique": "Coq state-machine model (with the generated Brent root finder inside) + exact trace correspondence; theorems on the sweep schedule and the root finder (C19); property oracle on scripted norm streams",
+    "technique": "Coq state-machine model (with the generated Brent root finder inside) + exact trace correspondence (incl. forced qubit orders); theorems on the sweep schedule, the run loop and the root finder (C19); property oracles on scripted and analytic norm streams",
     "text": ("Proved for every N>=3, every increasing target-time list and EVERY norm/uniform/matrix-change oracle stream, by "
              "induction over sweeps: the run either stops with one of three explicit errors (oracle exhausted, norm gap exactly 0 "
              "at the root-finder constructor, renormalised norm != 1) or keeps the invariant: current time inside the step in "
@@ -154,6 +154,11 @@ META = {
              "(uses the C19 theorems on the same generated term); fill_results exactly once per step, in order, at the step's "
              "end time; every quantum jump at a time inside the step in progress. Each sweep is exactly 2N-3 progress() calls "
              "with the symmetric kernel schedule. Termination for all streams is false (an adversarial norm stream can request "
-             "jumps forever) and is only bounded on the real code by the falsifier."),
+             "jumps forever) and is only bounded on the real code by the falsifier; what IS proved about the loop "
+             "`while not finished: progress()` of MPSBackend._run (source shape pinned): whenever it returns, the state is "
+             "finished, satisfies the invariant and has recorded every step exactly once. Validated on the real class only: "
+             "with a smoothly decaying norm (rates from fast to far below config.precision per ns) every jump is applied within "
+             "the 1 ns root tolerance of the analytic crossing time and none is missing; the evolving state is never rescaled in "
+             "place outside a jump (its norm is the jump clock)."),
     "note": "Trusted: Coq kernel+VM, hand-written machine model validated by trace correspondence, generated Brent model (C19).",
 }
